@@ -116,6 +116,9 @@ def observe_vector(ver, s):
         r["ev"] = o.environmental_vector()
     r["json"] = [[k, v] for k, v in o.as_json(sort=True).items()]
     r["json_min"] = sorted([k, v] for k, v in o.as_json(minimal=True).items())
+    # iteration order of the unsorted documents: defined by the language on the interpreter the check
+    # runs under (3.7+), and as user-visible (json.dumps text) as any value
+    r["json_order"] = [list(o.as_json()), list(o.as_json(minimal=True))]
     return r
 
 
